@@ -109,9 +109,16 @@ For a general description of dotted items (items) and ℇ-moves of items, see:
 */
 func (this *Item) Emoves() (items []*Item) {
 	newItems := util.NewStack(8).Push(this)
+	expanded := make(map[string]bool)
 	for newItems.Len() > 0 {
 		verifhook.Step(verifhook.SiteLexEmoves)
 		item := newItems.Pop().(*Item)
+		// A nullable body inside {..} or [..] leads back to an item that was already
+		// expanded; expanding it again would never terminate.
+		if expanded[item.HashKey()] {
+			continue
+		}
+		expanded[item.HashKey()] = true
 
 		if item.Reduce() || item.nextIsTerminal() {
 			items = append(items, item)
